@@ -19,6 +19,11 @@
 //! key. Classes listed as `known` in the known-findings files are in addition excluded
 //! from the random generator by construction (and counted), so the rest of the space is
 //! still searched; when an entry disappears or becomes `fixed` the exclusion is lifted.
+//!
+//! Containers: sections 1-5 hold the operands in a Vec<Coor4D>. Section `containers` crosses the
+//! definitions with all 36 kinds of CoordinateSet the library offers; there the reference applies
+//! its stand-alone steps to a container of the same kind (which narrows after every step), and the
+//! stored elements are compared (see "operand containers of every supported kind" below).
 
 use geodesy::authoring::Tokenize;
 use geodesy::prelude::*;
@@ -523,21 +528,28 @@ enum RefOut {
 }
 
 impl Exec {
+    /// The stand-alone operator for a bare elementary definition (instantiated once per context);
+    /// `Ok(Err(text))` = the instantiation panicked.
+    fn handle(&mut self, def: &str) -> Result<Result<OpHandle, String>, Failure> {
+        if let Some(h) = self.cache.get(def) {
+            return Ok(Ok(*h));
+        }
+        let h = match try_op(&mut self.ctx, def) {
+            Err(p) => return Ok(Err(format!("instantiating stand-alone '{def}': {} at {}:{}", p.msg, p.file, p.line))),
+            Ok(Err(e)) => vfail!("harness-standalone-step-rejected", "the stand-alone step '{def}' is rejected: {e:?} (generator bug)"),
+            Ok(Ok(h)) => h,
+        };
+        self.cache.insert(def.to_string(), h);
+        Ok(Ok(h))
+    }
+
     fn run(&mut self, trace: &Trace, probes: &[P4]) -> Result<RefOut, Failure> {
         let mut data = c4s(probes);
         let mut count = usize::MAX;
         for (def, fwd) in trace {
-            let h = match self.cache.get(def) {
-                Some(h) => *h,
-                None => {
-                    let h = match try_op(&mut self.ctx, def) {
-                        Err(p) => return Ok(RefOut::Panicked(format!("instantiating stand-alone '{def}': {} at {}:{}", p.msg, p.file, p.line))),
-                        Ok(Err(e)) => vfail!("harness-standalone-step-rejected", "the stand-alone step '{def}' is rejected: {e:?} (generator bug)"),
-                        Ok(Ok(h)) => h,
-                    };
-                    self.cache.insert(def.clone(), h);
-                    h
-                }
+            let h = match self.handle(def)? {
+                Ok(h) => h,
+                Err(what) => return Ok(RefOut::Panicked(what)),
             };
             match try_apply(&self.ctx, h, dir_of(*fwd), &mut data) {
                 Err(p) => return Ok(RefOut::Panicked(format!("applying stand-alone '{def}': {} at {}:{}", p.msg, p.file, p.line))),
@@ -1740,6 +1752,647 @@ fn check_history(case: &HistCase, rec: &mut Rec) -> CaseResult {
     }
 }
 
+// ---- operand containers of every supported kind ----------------------------------------------------
+//
+// The property is stated for "all coordinates", i.e. for operands in any CoordinateSet the library
+// offers, not only Vec<Coor4D>. A container that stores fewer than four f64 per tuple narrows what an
+// operator hands back (Coor2D drops z and t, Coor3D drops t, Coor32 rounds to f32; get_coord supplies
+// 0 / NaN again, the (set, h, t) and (set, t) wrappers supply their fixed values), and a stand-alone
+// operator applied to such a container does so after EVERY step ("2-D/3-D containers drop Z/T between
+// pipeline steps by design"). So the reference interpreter applies its stand-alone steps one after
+// another to a container of the SAME kind holding the same operands, and the contents of the two
+// containers (what they store, bit for bit) and the counts must agree.
+//
+// A case is discriminating ("narrowing-sensitive") when the same stand-alone steps applied to a dense
+// 4-D copy of the operands (narrowed into the container once, at the end) give something else than the
+// step-by-step application on the container itself: measured with the reference, for the evidence and
+// for the failure key only.
+
+/// the pipeline behaves as if it ran on a dense 4-D copy of the operands, narrowed into the container once
+const K_WIDE: &str = "pipeline-narrows-once-instead-of-after-every-step";
+
+trait Elem: Copy {
+    fn from4(p: [f64; 4]) -> Self;
+    fn stored(&self) -> Vec<f64>;
+}
+impl Elem for Coor4D {
+    fn from4(p: [f64; 4]) -> Self {
+        Coor4D(p)
+    }
+    fn stored(&self) -> Vec<f64> {
+        self.0.to_vec()
+    }
+}
+impl Elem for Coor3D {
+    fn from4(p: [f64; 4]) -> Self {
+        Coor3D([p[0], p[1], p[2]])
+    }
+    fn stored(&self) -> Vec<f64> {
+        self.0.to_vec()
+    }
+}
+impl Elem for Coor2D {
+    fn from4(p: [f64; 4]) -> Self {
+        Coor2D([p[0], p[1]])
+    }
+    fn stored(&self) -> Vec<f64> {
+        self.0.to_vec()
+    }
+}
+impl Elem for Coor32 {
+    fn from4(p: [f64; 4]) -> Self {
+        Coor32([p[0] as f32, p[1] as f32])
+    }
+    fn stored(&self) -> Vec<f64> {
+        vec![self.0[0] as f64, self.0[1] as f64]
+    }
+}
+
+/// arrays have a fixed length: a case with an array container holds exactly ARR_N tuples
+const ARR_N: usize = 4;
+const INNER: [&str; 4] = ["Coor4D", "Coor3D", "Coor2D", "Coor32"];
+const SHAPES: [&str; 3] = ["Vec", "array", "&mut slice"];
+
+#[derive(Clone, Copy, Debug, Serialize, Deserialize)]
+struct Kind {
+    inner: u8, // Coor4D, Coor3D, Coor2D, Coor32
+    shape: u8, // Vec, array, &mut slice
+    wrap: u8,  // plain, (set, h, t), (set, t)
+    h: F,
+    t: F,
+}
+
+impl Kind {
+    fn shape_for(&self, n: usize) -> usize {
+        if self.shape % 3 == 1 && n != ARR_N {
+            0
+        } else {
+            (self.shape % 3) as usize
+        }
+    }
+    fn label(&self, n: usize) -> String {
+        let base = format!("{} of {}", SHAPES[self.shape_for(n)], INNER[(self.inner % 4) as usize]);
+        match self.wrap % 3 {
+            1 => format!("({base}, {:?}, {:?})", self.h.0, self.t.0),
+            2 => format!("({base}, {:?})", self.t.0),
+            _ => base,
+        }
+    }
+    /// what CoordinateSet::dim reports for this kind
+    fn dim(&self) -> usize {
+        if self.wrap % 3 != 0 {
+            4
+        } else {
+            [4, 3, 2, 2][(self.inner % 4) as usize]
+        }
+    }
+    fn plain_4d(&self) -> bool {
+        self.inner % 4 == 0 && self.wrap % 3 == 0
+    }
+}
+
+/// Build a container of the given kind from the operands, hand it to `f` as a CoordinateSet, and
+/// return what `f` returns together with what the elements of the container store afterwards.
+fn with_set<T: Elem, R>(k: &Kind, pts: &[P4], f: &mut dyn FnMut(&mut dyn CoordinateSet) -> R) -> (R, Vec<Vec<f64>>)
+where
+    Vec<T>: CoordinateSet,
+    [T; ARR_N]: CoordinateSet,
+    for<'a> &'a mut [T]: CoordinateSet,
+{
+    let mut elems: Vec<T> = pts.iter().map(|p| T::from4([p[0].0, p[1].0, p[2].0, p[3].0])).collect();
+    let (h, t) = (k.h.0, k.t.0);
+    let wrap = k.wrap % 3;
+    let r = match k.shape_for(pts.len()) {
+        0 => match wrap {
+            1 => {
+                let mut w = (elems, h, t);
+                let r = f(&mut w);
+                elems = w.0;
+                r
+            }
+            2 => {
+                let mut w = (elems, t);
+                let r = f(&mut w);
+                elems = w.0;
+                r
+            }
+            _ => f(&mut elems),
+        },
+        1 => {
+            let mut a: [T; ARR_N] = std::array::from_fn(|i| elems[i]);
+            let r = match wrap {
+                1 => {
+                    let mut w = (a, h, t);
+                    let r = f(&mut w);
+                    a = w.0;
+                    r
+                }
+                2 => {
+                    let mut w = (a, t);
+                    let r = f(&mut w);
+                    a = w.0;
+                    r
+                }
+                _ => f(&mut a),
+            };
+            elems = a.to_vec();
+            r
+        }
+        _ => {
+            let mut sl: &mut [T] = &mut elems[..];
+            match wrap {
+                1 => {
+                    let mut w = (sl, h, t);
+                    f(&mut w)
+                }
+                2 => {
+                    let mut w = (sl, t);
+                    f(&mut w)
+                }
+                _ => f(&mut sl),
+            }
+        }
+    };
+    (r, elems.iter().map(|e| e.stored()).collect())
+}
+
+fn on_kind<R>(k: &Kind, pts: &[P4], f: &mut dyn FnMut(&mut dyn CoordinateSet) -> R) -> (R, Vec<Vec<f64>>) {
+    match k.inner % 4 {
+        0 => with_set::<Coor4D, R>(k, pts, f),
+        1 => with_set::<Coor3D, R>(k, pts, f),
+        2 => with_set::<Coor2D, R>(k, pts, f),
+        _ => with_set::<Coor32, R>(k, pts, f),
+    }
+}
+
+fn stored_eq(a: &[Vec<f64>], b: &[Vec<f64>]) -> bool {
+    a.len() == b.len() && a.iter().zip(b).all(|(x, y)| x.len() == y.len() && x.iter().zip(y).all(|(p, q)| bits_eq(*p, *q)))
+}
+fn first_stored_diff(a: &[Vec<f64>], b: &[Vec<f64>]) -> Option<usize> {
+    if a.len() != b.len() {
+        return Some(a.len().min(b.len()));
+    }
+    a.iter().zip(b).position(|(x, y)| !stored_eq(std::slice::from_ref(x), std::slice::from_ref(y)))
+}
+
+enum Seq {
+    Done(usize),
+    Panicked,
+    Error(String),
+}
+
+/// the stand-alone steps one after another on the set itself (count: minimum, set size if none)
+fn seq_apply(ctx: &Minimal, steps: &[(OpHandle, bool, String)], set: &mut dyn CoordinateSet) -> Seq {
+    let mut count = usize::MAX;
+    for (h, fwd, def) in steps {
+        match try_apply(ctx, *h, dir_of(*fwd), &mut *set) {
+            Err(_) => return Seq::Panicked,
+            Ok(Err(e)) => return Seq::Error(format!("apply of stand-alone '{def}' returned {e:?}")),
+            Ok(Ok(c)) => count = count.min(c),
+        }
+    }
+    if count == usize::MAX {
+        count = set.len();
+    }
+    Seq::Done(count)
+}
+
+/// the same steps on a dense 4-D copy of the set, stored back once (NOT the reference: only used to
+/// measure whether a case can tell the two apart, and to name the failure)
+fn wide_apply(ctx: &Minimal, steps: &[(OpHandle, bool, String)], set: &mut dyn CoordinateSet) -> Seq {
+    let mut buf: Vec<Coor4D> = (0..set.len()).map(|i| set.get_coord(i)).collect();
+    let r = seq_apply(ctx, steps, &mut buf);
+    for (i, c) in buf.iter().enumerate() {
+        set.set_coord(i, c);
+    }
+    r
+}
+
+#[derive(Clone, Debug, Serialize, Deserialize)]
+struct ContCase {
+    kind: Kind,
+    recipe: String, // how the definition was built (evidence only)
+    case: Case,
+}
+
+fn check_container(cc: &ContCase, rec: &mut Rec) -> CaseResult {
+    let case = &cc.case;
+    let kind = &cc.kind;
+    let texts = render_case(case);
+    let reach = reachable(case);
+    let mut ex = Exec { ctx: Minimal::new(), cache: BTreeMap::new() };
+    for (i, m) in case.macros.iter().enumerate() {
+        ex.ctx.register_resource(&m.name, &texts.macros[i]);
+    }
+    let op = match try_op(&mut ex.ctx, &texts.main) {
+        Err(p) => vfail!(format!("panic-instantiate@{}", p.sig()), "instantiation panics: {} at {}:{}\n{}", p.msg, p.file, p.line, describe(case, &texts)),
+        Ok(Err(e)) => vfail!(K_REJECT, "a well-formed definition (every step instantiates on its own) is rejected: {e:?}\n{}", describe(case, &texts)),
+        Ok(Ok(op)) => op,
+    };
+    let probes = probes_of(case);
+    let n = probes.len();
+    let label = kind.label(n);
+
+    let traces = [plan(case, &texts, Q::NONE, true), plan(case, &texts, Q::NONE, false)];
+    let mut steps: Vec<Vec<(OpHandle, bool, String)>> = vec![];
+    for t in &traces {
+        let mut v = vec![];
+        for (def, fwd) in t {
+            match ex.handle(def)? {
+                Ok(h) => v.push((h, *fwd, def.clone())),
+                Err(_) => {
+                    rec.class("standalone-step-panics");
+                    rec.count("skipped_standalone_panic", 1);
+                    return Ok(());
+                }
+            }
+        }
+        steps.push(v);
+    }
+
+    let mut sensitive = [false, false];
+    for (k, fwd) in [true, false].into_iter().enumerate() {
+        let ctx = &ex.ctx;
+        let (lib_r, lib_st) = on_kind(kind, &probes, &mut |set| try_apply(ctx, op, dir_of(fwd), set));
+        let (ref_r, ref_st) = on_kind(kind, &probes, &mut |set| seq_apply(ctx, &steps[k], set));
+        let (wide_r, wide_st) = on_kind(kind, &probes, &mut |set| wide_apply(ctx, &steps[k], set));
+        let ref_count = match ref_r {
+            Seq::Done(c) => c,
+            Seq::Panicked => {
+                // a step that panics on its own is not a composition matter (C09)
+                rec.class("standalone-step-panics");
+                rec.count("skipped_standalone_panic", 1);
+                return Ok(());
+            }
+            Seq::Error(e) => vfail!("harness-standalone-apply-error", "{e} on a {label}"),
+        };
+        let lib_count = match lib_r {
+            Err(p) => vfail!(
+                "panic-apply-pipeline-only",
+                "the pipeline applied to a {label} panics ({} at {}:{} [{}]) where the sequence of stand-alone steps does not\n{}",
+                p.msg,
+                p.file,
+                p.line,
+                p.sig(),
+                describe(case, &texts)
+            ),
+            Ok(Err(e)) => vfail!("apply-error", "apply ({:?}) to a {label} returned an error: {e:?}\n{}", dir_of(fwd), describe(case, &texts)),
+            Ok(Ok(c)) => c,
+        };
+        let wide_ok = matches!(wide_r, Seq::Done(_));
+        sensitive[k] = wide_ok && !stored_eq(&wide_st, &ref_st);
+        if !stored_eq(&lib_st, &ref_st) {
+            let i = first_stored_diff(&lib_st, &ref_st).unwrap_or(0);
+            let like_wide = wide_ok && stored_eq(&lib_st, &wide_st);
+            let key = if like_wide { K_WIDE } else { K_VALUES };
+            let expl = if like_wide {
+                "the library's result is what the same steps give on a dense 4-D copy of the operands that is narrowed into the container once at the end; a stand-alone step stores into the container (dropping what it cannot hold) every time"
+            } else {
+                "(not explained by running on a dense 4-D copy either)"
+            };
+            vfail!(
+                key,
+                "{:?} application to a {label} differs from the sequential application of the stand-alone steps to a container of the same kind\n{}  tuple {i}: operand {}  the container stores after the pipeline {:?}  after the stand-alone steps {:?}  (bitwise comparison, tolerance 0)\n  reference executes: {}\n  {expl}",
+                dir_of(fwd),
+                describe(case, &texts),
+                fmt_c4(&c4(&probes[i.min(n.saturating_sub(1))])),
+                lib_st.get(i),
+                ref_st.get(i),
+                fmt_trace(&traces[k])
+            );
+        }
+        vensure!(
+            lib_count == ref_count,
+            K_COUNT,
+            "{:?} application to a {label}: stored values agree, count: library {lib_count}, min over executed stand-alone steps {ref_count} (set size {n})\n{}  reference executes: {}",
+            dir_of(fwd),
+            describe(case, &texts),
+            fmt_trace(&traces[k])
+        );
+        if ref_count < n {
+            rec.class("count<n");
+        }
+    }
+
+    // --- bookkeeping
+    let any_mod = record_classes(case, &reach, rec);
+    let inner = INNER[(kind.inner % 4) as usize];
+    let wrap = ["plain", "(set,h,t)", "(set,t)"][(kind.wrap % 3) as usize];
+    rec.class(&format!("container:{}:{inner}:{wrap}", SHAPES[kind.shape_for(n)]));
+    rec.class(&format!("dim()={}", kind.dim()));
+    let (shape_name, how) = cc.recipe.split_once('/').unwrap_or((cc.recipe.as_str(), "as-generated"));
+    rec.class(&format!("built={shape_name}"));
+    rec.class(&format!("placed={how}"));
+    rec.class(if case.main.piped { "main=pipeline" } else { "main=single" });
+    rec.class(&format!("depth={}", depth(case, &case.main)));
+    rec.class(&format!("probes={n}"));
+    rec.metric("max_executed_steps", traces[0].len().max(traces[1].len()) as f64);
+    rec.count("standalone_applications", 2 * (traces[0].len() + traces[1].len()) as u64);
+    let any_sensitive = sensitive[0] || sensitive[1];
+    if any_sensitive {
+        rec.class(&format!("narrowing-sensitive:{inner}:{wrap}"));
+        rec.class(&format!("narrowing-sensitive:{}", SHAPES[kind.shape_for(n)]));
+        rec.class(&format!("narrowing-sensitive:built={shape_name}"));
+        rec.class(&format!("narrowing-sensitive:placed={how}"));
+        if sensitive[0] {
+            rec.class("narrowing-sensitive:Fwd");
+        }
+        if sensitive[1] {
+            rec.class("narrowing-sensitive:Inv");
+        }
+        if any_mod {
+            rec.class("narrowing-sensitive:with-modifiers");
+        }
+        if !reach.is_empty() {
+            rec.class("narrowing-sensitive:through-macro");
+        }
+        rec.count("narrowing_sensitive_cases", 1);
+        let mut fp = vec![label.clone(), canonical_body(&case.main, &case.macros)];
+        for m in &reach {
+            fp.push(format!("{}={}", case.macros[*m].name, canonical_body(&case.macros[*m].body, &case.macros)));
+        }
+        rec.nontrivial(&fp);
+    } else if kind.plain_4d() {
+        rec.class("control:plain-4-D-container");
+    } else {
+        rec.class("narrowing-insensitive");
+    }
+    Ok(())
+}
+
+// ---- generator: container kinds x pipelines whose intermediate results do not survive narrowing --------
+
+fn kind_strategy() -> impl Strategy<Value = Kind> {
+    let inner = prop_oneof![1 => Just(0u8), 3 => Just(1u8), 3 => Just(2u8), 3 => Just(3u8)];
+    let wrap = prop_oneof![3 => Just(0u8), 1 => Just(1u8), 1 => Just(2u8)];
+    let h = prop_oneof![1 => Just(0.0f64), 3 => -250.0f64..9000.0, 1 => Just(1234.5f64)];
+    let t = prop_oneof![2 => Just(2020.0f64), 2 => 1990.0f64..2030.0, 1 => Just(f64::NAN)];
+    (inner, 0u8..3, wrap, h, t).prop_map(|(inner, shape, wrap, h, t)| Kind { inner, shape, wrap, h: F(h), t: F(t) })
+}
+
+#[derive(Clone, Copy, Debug, PartialEq)]
+enum Dom {
+    Geo,          // lon, lat radians, height, epoch
+    Strip(usize), // the same within +-3 degrees of the central meridian of a UTM zone
+    Small,        // small numbers (some of them integers)
+    Deg,          // lon, lat degrees, height (feet), epoch
+}
+
+/// translations of very different magnitudes: far below an f32 ulp of the operands up to kilometres
+const LADDER: [&str; 12] = ["0.000000001", "0.0000000477", "0.0000003", "0.00001", "0.001", "0.3", "1", "7", "1000.5", "-0.0000000477", "-0.004", "-87"];
+const ORDERS_4D: [&str; 6] = ["1,2,4,3", "4,3,2,1", "2,-1,4,3", "4,1,2,3", "3,4,1,2", "-2,1,-4,3"];
+const ORDERS_3D: [&str; 5] = ["3,1,2", "2,3,1", "3,2,1", "-3,1,-2", "1,3,2"];
+const DESCS_4D: [&str; 6] = ["neuf_deg", "enuf_rad", "wsdp", "nwuf_gon", "uenf", "fune"];
+
+type RStep = (String, Vec<Param>, bool);
+
+fn rstep(name: &str, params: Vec<Param>, inv: bool) -> RStep {
+    (name.to_string(), params, inv)
+}
+
+fn ladder(u: u16) -> &'static str {
+    LADDER[pick(u, LADDER.len())]
+}
+
+/// Pipelines of the shapes people write, chosen so that an intermediate result needs more than the
+/// narrow containers can hold (a geocentric Z between two 2-D steps, a height or an epoch moved through
+/// another axis, metres or radians that are not f32 numbers, translations below an f32 ulp).
+fn recipe(sel: u16, a: u16, b: u16, c: u16, d: u16) -> (&'static str, Vec<RStep>, Dom) {
+    let ell = |u: u16| kv("ellps", ELLPS[pick(u, ELLPS.len())]);
+    let shift = |a: u16, b: u16, c: u16| vec![kv("x", small(a) * 13), kv("y", small(b) * 11), kv("z", small(c) * 17)];
+    let zone = 1 + pick(d, 60);
+    match pick(sel, 12) {
+        0 => ("datum-shift", vec![rstep("cart", vec![ell(a)], false), rstep("helmert", shift(a, b, c), false), rstep("cart", vec![ell(b)], true)], Dom::Geo),
+        1 => {
+            let p7 = vec![
+                kv("x", small(a) * 13),
+                kv("y", small(b) * 11),
+                kv("z", small(c) * 17),
+                kv("s", format!("{:.1}", pick(b, 200) as f64 / 10.0 - 10.0)),
+                kv("rx", format!("{:.2}", pick(c, 200) as f64 / 100.0 - 1.0)),
+                kv("rz", format!("{:.2}", pick(a, 200) as f64 / 100.0 - 1.0)),
+                kv("convention", if a & 1 == 1 { "position_vector" } else { "coordinate_frame" }),
+            ];
+            ("datum-shift-7-parameter", vec![rstep("cart", vec![ell(c)], false), rstep("helmert", p7, d & 1 == 1), rstep("cart", if d & 2 == 2 { vec![ell(d)] } else { vec![] }, true)], Dom::Geo)
+        }
+        2 => (
+            "datum-shift-then-utm",
+            vec![
+                rstep("cart", vec![ell(a)], false),
+                rstep("helmert", vec![kv("translation", format!("{},{},{}", small(a) * 9, small(b) * 9, small(c) * 9))], false),
+                rstep("cart", vec![], true),
+                rstep("utm", vec![kv("zone", zone)], false),
+            ],
+            Dom::Strip(zone),
+        ),
+        3 => (
+            "translation-ladder",
+            vec![
+                rstep("helmert", vec![kv("x", ladder(a))], false),
+                rstep("helmert", vec![kv("y", ladder(b)), kv("x", ladder(c))], d & 1 == 1),
+                rstep("helmert", vec![kv("x", ladder(a))], true),
+            ],
+            if d & 2 == 2 { Dom::Small } else { Dom::Geo },
+        ),
+        4 => (
+            "projected-round-trip",
+            vec![rstep("utm", vec![kv("zone", zone)], false), rstep("helmert", vec![kv("x", ladder(a)), kv("y", ladder(b))], false), rstep("utm", vec![kv("zone", zone)], true)],
+            Dom::Strip(zone),
+        ),
+        5 => (
+            "height-through-axisswap",
+            vec![
+                rstep("axisswap", vec![kv("order", ORDERS_3D[pick(a, ORDERS_3D.len())])], false),
+                rstep("helmert", vec![kv("x", small(a)), kv("y", small(b)), kv("z", small(c))], false),
+                rstep("axisswap", vec![kv("order", ORDERS_3D[pick(b, ORDERS_3D.len())])], d & 1 == 1),
+            ],
+            if d & 2 == 2 { Dom::Small } else { Dom::Geo },
+        ),
+        6 => (
+            "epoch-through-axisswap",
+            vec![
+                rstep("axisswap", vec![kv("order", ORDERS_4D[pick(a, ORDERS_4D.len())])], false),
+                rstep("helmert", vec![kv("z", small(c)), kv("x", ladder(b))], false),
+                rstep("axisswap", vec![kv("order", ORDERS_4D[pick(b, ORDERS_4D.len())])], d & 1 == 1),
+            ],
+            if d & 2 == 2 { Dom::Small } else { Dom::Geo },
+        ),
+        7 => (
+            "height-units-then-datum-shift",
+            vec![
+                rstep("unitconvert", vec![kv("xy_in", "deg"), kv("xy_out", "rad"), kv("z_in", UNITS[pick(a, 8)]), kv("z_out", "m")], false),
+                rstep("cart", vec![ell(b)], false),
+                rstep("helmert", vec![kv("z", small(c) * 17)], false),
+                rstep("cart", vec![], true),
+            ],
+            Dom::Deg,
+        ),
+        8 => (
+            "adapt-4-D",
+            vec![
+                rstep("adapt", vec![kv("from", DESCS_4D[pick(a, DESCS_4D.len())])], false),
+                rstep("helmert", vec![kv("x", small(a)), kv("z", small(c))], false),
+                rstep("adapt", vec![kv("to", DESCS_4D[pick(b, DESCS_4D.len())])], d & 1 == 1),
+            ],
+            Dom::Deg,
+        ),
+        9 => ("cart-addone-cart", vec![rstep("cart", vec![ell(a)], false), rstep("addone", vec![], b & 1 == 1), rstep("cart", vec![ell(a)], true)], Dom::Geo),
+        10 => (
+            "mercator-chain",
+            vec![
+                rstep("merc", if a & 1 == 1 { vec![kv("lat_ts", small(a) * 6)] } else { vec![] }, false),
+                rstep("helmert", vec![kv("x", ladder(b)), kv("y", ladder(c))], false),
+                rstep("webmerc", vec![], true),
+                rstep("latitude", vec![fl(LATS[pick(d, LATS.len())])], false),
+            ],
+            Dom::Geo,
+        ),
+        _ => (
+            "cartesian-and-back-twice",
+            vec![rstep("cart", vec![], false), rstep("cart", vec![ell(a)], true), rstep("cart", vec![ell(b)], false), rstep("helmert", shift(c, a, b), d & 1 == 1), rstep("cart", vec![], true)],
+            Dom::Geo,
+        ),
+    }
+}
+
+fn dom_point(dom: Dom, r: [f64; 4]) -> P4 {
+    let lon = (r[0] - 0.5) * 358.0;
+    let lat = (r[1] - 0.5) * 178.0;
+    let h = -100.0 + 5000.0 * r[2];
+    match dom {
+        Dom::Geo => p4(lon.to_radians(), lat.to_radians(), h, 2020.0),
+        Dom::Strip(zone) => p4((-183.0 + 6.0 * zone as f64 + (r[0] - 0.5) * 6.0).to_radians(), lat.to_radians(), h, 2020.0),
+        Dom::Small => {
+            if r[3] < 0.4 {
+                p4(((r[0] - 0.5) * 20.0).round(), ((r[1] - 0.5) * 20.0).round(), ((r[2] - 0.5) * 20.0).round(), (r[3] * 10.0).round())
+            } else {
+                p4((r[0] - 0.5) * 100.0, (r[1] - 0.5) * 100.0, (r[2] - 0.5) * 100.0, r[3] * 5.0)
+            }
+        }
+        Dom::Deg => p4(lon, lat, h * 3.0, 2000.0 + 30.0 * r[3]),
+    }
+}
+
+#[derive(Clone, Debug)]
+struct RawRecipe {
+    sel: u16,
+    a: u16,
+    b: u16,
+    c: u16,
+    d: u16,
+    wrapping: u8,
+    mods: Vec<RawStep>,            // spelling / omit_* / layout of the recipe steps (and of the macro invocation)
+    extras: Vec<(u16, RawStep)>,   // random catalogue steps put in between
+    lays: (u32, u32, bool),
+    pts: Vec<[f64; 4]>,
+    np: u8,
+    fault: (u8, u16, u8),
+}
+
+fn raw_recipe() -> impl Strategy<Value = RawRecipe> {
+    (
+        (any::<u16>(), any::<u16>(), any::<u16>(), any::<u16>(), any::<u16>(), any::<u8>()),
+        prop::collection::vec(raw_step(0.0), 8),
+        prop::collection::vec((any::<u16>(), raw_step(0.0)), 0..=2),
+        (lay(), lay(), prop::bool::weighted(0.3)),
+        prop::collection::vec([0.0f64..1.0, 0.0f64..1.0, 0.0f64..1.0, 0.0f64..1.0], 6),
+        any::<u8>(),
+        (any::<u8>(), any::<u16>(), any::<u8>()),
+    )
+        .prop_map(|((sel, a, b, c, d, wrapping), mods, extras, lays, pts, np, fault)| RawRecipe { sel, a, b, c, d, wrapping, mods, extras, lays, pts, np, fault })
+}
+
+fn build_recipe(rr: &RawRecipe, kind: &Kind) -> ContCase {
+    let (name, rsteps, dom) = recipe(rr.sel, rr.a, rr.b, rr.c, rr.d);
+    // the recipe steps: `inv` as the recipe says (spelled as drawn), omit_* as drawn (at the rates of the other sections)
+    let mut steps: Vec<Step> = rsteps
+        .iter()
+        .enumerate()
+        .map(|(i, (n, p, inv))| {
+            let m = &rr.mods[i % rr.mods.len()];
+            Step {
+                target: Target::Elem { name: n.clone(), params: p.clone() },
+                inv: if *inv { Some(INV_SP[m.sel as usize % 5]) } else { None },
+                omit_fwd: m.of.map(|i| OMIT_SP[i as usize % 6]),
+                omit_inv: m.oi.map(|i| OMIT_SP[i as usize % 6]),
+                lay: m.lay,
+            }
+        })
+        .collect();
+    // random steps of the catalogue in between (invertible operators only)
+    for (pos, raw) in &rr.extras {
+        let mut raw = raw.clone();
+        raw.ow = 255;
+        let s = build_step(&raw, &[], &[], true, false);
+        steps.insert(pick(*pos, steps.len() + 1), s);
+    }
+    let inv_of = |m: &RawStep| m.inv.map(|i| INV_SP[i as usize % 5]);
+    let invoke = |i: usize, m: &RawStep, omits: bool| Step {
+        target: Target::Macro(i),
+        inv: inv_of(m),
+        omit_fwd: if omits { m.of.map(|i| OMIT_SP[i as usize % 6]) } else { None },
+        omit_inv: if omits { m.oi.map(|i| OMIT_SP[i as usize % 6]) } else { None },
+        lay: m.lay,
+    };
+    let (l_main, l_body, spicy) = rr.lays;
+    let body = |steps: Vec<Step>, piped: bool, lay: u32| Body { steps, piped, lay, spicy };
+    let a1 = plain(el("addone", vec![]));
+    let mut a1i = plain(el("addone", vec![]));
+    a1i.inv = Some(Sp::Suffix);
+    let (m6, m7) = (&rr.mods[6], &rr.mods[7]);
+    let (how, macros, main): (&str, Vec<MacroDef>, Body) = match rr.wrapping % 8 {
+        // the whole pipeline behind a macro, invoked alone (no step delimiter) ...
+        3 => ("macro-alone", vec![MacroDef { name: NAMES[0].into(), body: body(steps, true, l_body) }], body(vec![invoke(0, m6, false)], false, l_main)),
+        // ... or as a step between two others
+        4 => ("macro-as-step", vec![MacroDef { name: NAMES[0].into(), body: body(steps, true, l_body) }], body(vec![a1, invoke(0, m6, true), a1i], true, l_main)),
+        // one step of the pipeline behind a single-operator macro
+        5 => {
+            let k = pick(rr.d, steps.len());
+            let mut single = steps[k].clone();
+            single.omit_fwd = None;
+            single.omit_inv = None;
+            steps[k] = invoke(0, m6, true);
+            ("one-step-is-a-macro", vec![MacroDef { name: NAMES[0].into(), body: body(vec![single], false, l_body) }], body(steps, true, l_main))
+        }
+        // the first two steps behind a macro, the rest in the definition; or nested one level deeper
+        6 | 7 => {
+            let rest = steps.split_off(2.min(steps.len()));
+            let mut macros = vec![MacroDef { name: NAMES[0].into(), body: body(steps, true, l_body) }];
+            let mut head = invoke(0, m6, true);
+            if rr.wrapping % 8 == 7 {
+                macros.push(MacroDef { name: NAMES[1].into(), body: body(vec![head, a1i], true, l_body ^ 0x55) });
+                head = invoke(1, m7, true);
+            }
+            let mut ms = vec![head];
+            ms.extend(rest);
+            (if rr.wrapping % 8 == 7 { "head-behind-nested-macros" } else { "head-behind-macro" }, macros, body(ms, true, l_main))
+        }
+        _ => ("plain", vec![], body(steps, true, l_main)),
+    };
+    // operands: 1..6 tuples of the domain of the recipe (exactly ARR_N for an array), sometimes one tuple with a NaN
+    let n = if kind.shape % 3 == 1 { ARR_N } else { 1 + pick((rr.np as u16) << 8, 6) };
+    let mut probes: Vec<P4> = rr.pts.iter().take(n).map(|r| dom_point(dom, *r)).collect();
+    if rr.fault.0 < 48 {
+        let i = pick(rr.fault.1, n);
+        probes[i][(rr.fault.2 % 2) as usize] = F(f64::NAN);
+    }
+    let case = Case { macros, main, probes, excluded: vec![], bulk: None };
+    ContCase { kind: *kind, recipe: format!("{name}/{how}"), case }
+}
+
+fn container_case(kn: Known) -> impl Strategy<Value = ContCase> {
+    let random = (kind_strategy(), random_case(kn, 5, 3, 0.35)).prop_map(|(kind, mut case)| {
+        if kind.shape % 3 == 1 {
+            // an array holds exactly ARR_N tuples
+            let src = if case.probes.is_empty() { vec![p4(0.2, 0.9, 30.0, 2020.0)] } else { case.probes.clone() };
+            case.probes = (0..ARR_N).map(|i| src[i % src.len()]).collect();
+        }
+        ContCase { kind, recipe: "random-catalogue".into(), case }
+    });
+    let shaped = (kind_strategy(), raw_recipe()).prop_map(|(kind, rr)| build_recipe(&rr, &kind));
+    prop_oneof![2 => random, 3 => shaped]
+}
+
 // ---- known findings (read only) -----------------------------------------------------------------------
 
 fn load_known(root: &std::path::Path) -> BTreeSet<String> {
@@ -1770,6 +2423,7 @@ fn main() {
     run.assume("an operator without an inverse (gravity, curvature) applied in the inverse direction behaves like its stand-alone instance: data untouched, count 0 (the placeholder of the library); inv is never put on such an operator nor on a macro with an unshielded one below it (NonInvertible / not promised)");
     run.assume("a definition instantiated after register_resource means what its text means under the registrations in force at that moment (handles obtained earlier are not examined: C18)");
     run.assume("macros are invoked without ordinary arguments (argument passing is C04); stack/push/pop steps are excluded (C12)");
+    run.assume("containers: a stand-alone operator applied to a narrow container stores its result there, so a step of the sequential reference sees what the container returns from get_coord after the previous step (Coor2D: z = 0, t = NaN; Coor3D: t = NaN; Coor32: f32 values; wrappers: their fixed height / epoch) - the library's documented behaviour for pipelines on such containers; the reference uses the library's own containers, so get_coord/set_coord themselves are not checked here (C14)");
     run.assume("a case in which a stand-alone step panics is skipped (robustness is C09); NaN results are compared as equal whatever their payload");
 
     // 1. exhaustive: every subset of the three modifiers x every spelling on one focus step
@@ -1848,5 +2502,17 @@ fn main() {
         );
     }
 
-    run.finish("generated definition ASTs (pipelines, macros nested to depth 3, all modifier spellings and positions, random layout) executed by the library and by a reference interpreter that applies the stand-alone elementary steps sequentially through the same public API; results compared bit for bit together with the counts, in both directions; one focus step enumerated exhaustively over all modifier subsets x spellings x 8 contexts");
+    // 6. operand containers of every kind: the stand-alone steps are applied to a container of the same kind
+    {
+        let n = run.scale(40_000, 600_000);
+        run.section(
+            "containers",
+            "container kind = {Coor4D (10%), Coor3D, Coor2D, Coor32 (30% each)} x {Vec, array of 4, &mut slice} x {plain (60%), (set, height, epoch), (set, epoch)} (36 kinds; fixed height 0 / random / 1234.5, fixed epoch incl. NaN) x definition: 40% as in random-pipelines (1..5 steps, macros with bodies of 1..3 steps), 60% one of 12 pipeline shapes whose intermediate results need more than a narrow container holds (cart | helmert | cart inv datum shifts with 3- and 7-parameter helmert, the same followed by utm, cart | addone | cart inv, geographic -> cartesian -> geographic twice, utm | helmert | utm inv, merc | helmert | webmerc inv | latitude, height moved through the axes by 3-D axisswaps, epoch moved through the axes by 4-D axisswaps, unitconvert of heights followed by a datum shift, 4-D adapt descriptors around a helmert, translations from 1e-9 to 1000.5 i.e. far below and above an f32 ulp of the operands) with inv as the shape says in a drawn spelling, omit_fwd / omit_inv drawn per step as elsewhere, 0..2 random catalogue steps in between, random layout, and the pipeline either in the definition itself, behind a macro invoked alone or as a step (with drawn inv / omit_*), with one step behind a single-operator macro, or with its first two steps behind one or two nested macros; 1..6 operand tuples in the domain of the shape (exactly 4 for arrays), 19% with a NaN; ORACLE: the library applies the definition to a container of that kind, the reference applies the stand-alone steps one after another to a second container of the SAME kind built from the same operands (so what a step hands to the next one is what the container can hold: z/t dropped, f32 rounding, fixed height/epoch of the wrappers): the stored elements must agree bit for bit and the counts must be equal, both directions; non-trivial = narrowing-sensitive: the same stand-alone steps on a dense 4-D copy of the operands, stored into the container once at the end, give different stored elements (measured with the reference); distinct by container label + spelled AST",
+            n,
+            move || container_case(kn),
+            check_container,
+        );
+    }
+
+    run.finish("generated definition ASTs (pipelines, macros nested to depth 3, all modifier spellings and positions, random layout) executed by the library and by a reference interpreter that applies the stand-alone elementary steps sequentially through the same public API; results compared bit for bit together with the counts, in both directions; one focus step enumerated exhaustively over all modifier subsets x spellings x 8 contexts; operands in all 36 container kinds (Coor4D/3D/2D/32 x Vec/array/slice x plain/(set,h,t)/(set,t)) with the reference applied to a container of the same kind, on pipelines whose intermediate results do not survive narrowing");
 }
